@@ -646,7 +646,29 @@ Inductive op :=
 | OCopyAppend (src dst : path) (np : nat)                         (* dst.append_child(src.copy_tree_structure(new_parent)); np: 0 False, 1 None, 2 dst *)
 | OQueryDur (p : path)                                            (* x.duration *)
 | OQueryBody (p : path)                                           (* x.body_duration *)
-| OEq (a b : path).                                               (* a == b (no effect) *)
+| OEq (a b : path)                                                (* a == b (no effect) *)
+| OEqCopy (p : path) (k : nat).                                   (* c = x.copy_tree_structure(None); perturb c in way k; x == c *)
+
+(* the copy of OEqCopy is changed in exactly one respect (k = 0, 5: in none that == may see) *)
+Fixpoint first_leaf (fuel : nat) (h : heap) (x : id) : id :=
+  match fuel with
+  | O => x
+  | S f => match get h x with
+           | Some n => match children n with c :: _ => first_leaf f h c | [] => x end
+           | None => x
+           end
+  end.
+Definition perturb (k : nat) (c : id) : M unit :=
+  n <- getn c ;;
+  match k with
+  | 0%nat => ret tt
+  | 1%nat => modn c (set_meas (Some (match meas n with Some l => l | None => [] end ++ [(9, 0%Q, 1%Q)])))
+  | 2%nat => set_repetition_definition c (RInt (rep_count (rdf n) + 1))
+  | 3%nat => set_waveform c (Some (WConst 7 3))
+  | 4%nat => fun h => let d := first_leaf (S (length h)) h c in
+                      (nd <- getn d ;; set_repetition_definition d (RInt (rep_count (rdf nd) + 1))) h
+  | _ => modn c (set_meas (match meas n with None => Some [] | m => m end))
+  end.
 
 Record state := mkState { st_heap : heap; st_root : id; st_vctr : Z }.
 
@@ -689,6 +711,7 @@ Definition step (s : state) (o : op) : state * outcome :=
   | OQueryDur p => run_at s p (fun x => fueled (fun fuel => duration fuel x) ;;; ret tt)
   | OQueryBody p => run_at s p (fun x => fueled (fun fuel => body_duration fuel x) ;;; ret tt)
   | OEq _ _ => (s, Done)
+  | OEqCopy p k => run_at s p (fun x => c <- copy_tree_structure x NPNone ;; perturb k c)
   end.
 
 Definition init_state (t : tspec) : state :=
